@@ -164,6 +164,8 @@ class TracepointConfigService:
         """
         registration_id = str(uuid.uuid4())
         config = build_trigger(registration_id, path, line, args, watches, metrics)
+        if config is None:
+            raise ValueError("Cannot interpret tracepoint arguments: %s" % args)
         self._custom.append(config)
         self._custom_ids[registration_id] = config
         self.__trigger_update(None, None)
